@@ -396,6 +396,38 @@ func c16Outcome(alpha []sym, token, sc bool, kind string, hist []int, rep *Repor
 		m.step(s, o)
 		rep.outcome(fmt.Sprintf("outcome %s@%s accept=%v reason=%s n=%d", s.Class, phase, accept, reason, len(o.Resps)))
 	}
+	if res.FrameErr != "" {
+		bad("transport-write-is-not-exactly-one-packet/paced", res.FrameErr)
+	}
+	// the same requests pipelined (all of them in one transport write, as a client that does not wait for answers
+	// sends them): every outcome is still reported, in order, one packet per transport write
+	if len(hist) >= 2 {
+		flat := func(r *SeqResult) string {
+			var sb strings.Builder
+			for _, o := range r.Steps {
+				for _, p := range o.Resps {
+					fmt.Fprintf(&sb, "%#x/%#x ", p.Type, tsgu.ParseResp(p).Status)
+				}
+			}
+			return sb.String()
+		}
+		var all []byte
+		for _, h := range hist {
+			all = append(all, alpha[h].Bytes...)
+		}
+		burst := RunSeq(c01Cfg(token, sc, kind), []Seg{{Bytes: all}})
+		rep.add("executions", 1)
+		rep.add("transitions", int64(burst.StepsRun))
+		for _, p := range burst.Panics {
+			bad("panic:"+shortFn(panicSite(p)), p.Value)
+		}
+		if a, b := flat(res), flat(burst); a != b && len(burst.Panics) == 0 {
+			bad("outcome-not-reported-to-a-pipelining-client", fmt.Sprintf("requests one by one: %q; the same requests in one write: %q", a, b))
+		}
+		if burst.FrameErr != "" {
+			bad("transport-write-is-not-exactly-one-packet/pipelined", burst.FrameErr)
+		}
+	}
 	return
 }
 
